@@ -1,8 +1,11 @@
 package checks
 
 import (
+	"fmt"
+	"os"
 	"reflect"
 	"strings"
+	"time"
 
 	formula "github.com/aundis/formula"
 
@@ -74,7 +77,17 @@ func judgeC03(c EvalCase) *eng.Fail {
 		r.SetThis(d)
 	}
 	resetSteps()
+	t0 := time.Now()
 	o := safeResolve(r, bg, p.src.Expression)
+	if d := time.Since(t0); d > 200*time.Millisecond {
+		note("evaluations_slower_than_200ms", 1)
+		if path := os.Getenv("VERIF_SLOW"); path != "" {
+			if f, err := os.OpenFile(path, os.O_APPEND|os.O_CREATE|os.O_WRONLY, 0644); err == nil {
+				fmt.Fprintf(f, "%v %s\n", d, c.Src)
+				f.Close()
+			}
+		}
+	}
 	if stepBudgetHit() {
 		return eng.F("C03/step-budget", "evaluation did not finish within the step budget: non-termination")
 	}
@@ -129,6 +142,9 @@ func runC03(w *eng.W) {
 			do("prefix", op+v.Expr, "zoo")
 			do("prefix", op+op+v.Expr, "zoo")
 		}
+		do("cyclic", "$l = this, $l."+"$l"+" === null ? 1 : "+v.Expr, "zoo")
+		do("cyclic", "$l = this, toString("+v.Expr+") + toString($l)", "zoo")
+		do("cyclic", "$l = [this], '' + $l + "+v.Expr, "zoo")
 		do("assign", "$l = "+v.Expr, "zoo")
 		do("assign", "($l = "+v.Expr+"), $l", "zoo")
 		do("array", "["+v.Expr+", "+v.Expr+"]", "zoo")
@@ -158,9 +174,9 @@ func runC03(w *eng.W) {
 		}
 	}
 	// (c) builtins x argument lists
-	argAlpha := []string{"null", "true", "1", "-1", "2.5", "1e6", "1e30", "(0/0)", "'abc'", "''", "'('", "[1,'a']", "['a','b']", "v32", "v41", "[[1]]", "-3", "0"}
+	argAlpha := []string{"null", "true", "1", "-1", "2.5", "1e6", "1e30", "(0/0)", "'abc'", "''", "'('", "[1,'a']", "['a','b']", "v32", "v41", "[[1]]", "-3", "0", "1e-30000000", "this", "($c = this)"}
 	if q {
-		argAlpha = []string{"null", "1", "-1", "1e30", "'abc'", "'('", "[1,'a']", "v41", "(0/0)"}
+		argAlpha = []string{"null", "1", "-1", "1e30", "'abc'", "'('", "[1,'a']", "v41", "(0/0)", "1e-30000000", "($c = this)"}
 	}
 	zd := zooData(V)
 	for _, name := range builtinNames {
@@ -191,6 +207,9 @@ func runC03(w *eng.W) {
 					parts[i] = argAlpha[x]
 				}
 				args := strings.Join(parts, ", ")
+				if q && name == "roundCash" && strings.Contains(args, "1e-30000000") {
+					return // terminates, but the library's remainder needs ~14 s for it: thorough tier only
+				}
 				do("builtin", name+"("+args+")", "zoo")
 				if l > 0 && l <= 2 {
 					do("builtin-spread", name+"("+args+"...)", "zoo")
